@@ -9,7 +9,7 @@ DEF = re.compile(r"^([A-Za-z_]\w*)(\([^)]*\))?\s*==")
 
 def disjuncts(src_lines, defname):
     """names of the operators that are the disjuncts of `defname == \\/ A \\/ B ...` (possibly over several lines)"""
-    out, on = [], False
+    out, on, text = [], False, []
     for ln in src_lines:
         m = DEF.match(ln)
         if m:
@@ -19,7 +19,12 @@ def disjuncts(src_lines, defname):
         if on:
             body = ln.split("==", 1)[1] if DEF.match(ln) else ln
             body = body.split("\\*")[0]
-            out += re.findall(r"\\/\s*([A-Za-z_]\w*)", body)
+            text.append(body)
+    # the disjuncts are what stands between the \/ signs (the first one need not be preceded by one)
+    for part in " ".join(text).split("\\/"):
+        m = re.match(r"\s*([A-Za-z_]\w*)", part)
+        if m and m.group(1) not in out:
+            out.append(m.group(1))
     return out
 
 
